@@ -106,8 +106,19 @@ NcElems ==
 RECURSIVE NcSeqs(_)
 NcSeqs(n) == IF n = 0 THEN {<<>>} ELSE { e \o t : e \in NcElems, t \in NcSeqs(n - 1) }
 NcFam == [a \in NcElems |-> { Pre3 \o a \o q : q \in NcSeqs(3) }]
+\* the clock moves forwards AND backwards between calls (a corrected clock, a test harness): the verdict is computed
+\* from the clock of the call, not from any clock seen before
+Tmid == WAdd(T0, WOf(500))
+ClkElems ==
+  { <<ClockOp(WAdd(T0, WOf(1000)))>>, <<ClockOp(T0)>>, <<ClockOp(WSub(T0, WOf(1000)))>>,
+    <<V([Good EXCEPT !.pay.m = <<IntM("exp", Tmid)>>])>>, <<V([Good EXCEPT !.pay.m = <<IntM("nbf", Tmid)>>])>>,
+    <<V([Good EXCEPT !.pay.m = <<IntM("exp", Tmid)>>, !.sig = Sig("flipbit", "HS256", KOct)])>>,
+    <<V([Good EXCEPT !.pay.m = <<IntM("exp", WSub(T0, WOf(500))), IntM("nbf", WSub(T0, WOf(500)))>>])>>, <<[op |-> "CErrClear", c |-> 0]>> }
+RECURSIVE ClkSeqs(_)
+ClkSeqs(n) == IF n = 0 THEN {<<>>} ELSE { e \o t : e \in ClkElems, t \in ClkSeqs(n - 1) }
+ClkFam == [a \in ClkElems |-> { Pre3 \o a \o q : q \in ClkSeqs(3) }]
 MCSpec == ISpecP(IF Part = "nc" THEN InFam(NcFam)
-                 ELSE (InFam(CheckerFam) \/ InFam(NoKeyFam) \/ InFam(BuilderFam) \/ script \in BuilderNoKey \/ InFam(ClaimFam) \/ InFam(LifeFam) \/ InFam(EcFam)))
+                 ELSE (InFam(CheckerFam) \/ InFam(NoKeyFam) \/ InFam(BuilderFam) \/ script \in BuilderNoKey \/ InFam(ClaimFam) \/ InFam(LifeFam) \/ InFam(EcFam) \/ InFam(ClkFam)))
 
 \* ---- on the specification: the configuration a verdict is computed from is
 \* exactly what the configuration calls made it; verify, generate and
